@@ -92,6 +92,13 @@ func (v *Vue) evalSlot(ctx VueContext, node *html.Node, slotScope *SlotScope) ([
 		if isFuncCallError(err) {
 			return nil, fmt.Errorf("in slot binding %s=\"%s\": %w", attr.Key, attr.Val, err)
 		}
+		if err != nil && strings.Contains(helpers.MaskQuoted(attr.Val), "|") {
+			// a filter chain (item | upper) is what a bound attribute makes of it
+			val, err = v.evalPipe(ctx, parsePipeExpr(strings.TrimSpace(attr.Val)))
+			if err != nil {
+				return nil, fmt.Errorf("in slot binding %s=\"%s\": %w", attr.Key, attr.Val, err)
+			}
+		}
 		if err == nil && val != nil {
 			slotProps[propName] = val
 		}
